@@ -119,7 +119,9 @@ func (o *OpenAPI3Importer) convertSpec(spec *openapi3.T) (string, error) {
 
 	// Convert types
 	o.types = TypeList{}
-	for name, ref := range spec.Components.Schemas {
+	// in name order: two schema names can become the same Sysl name (`9a` and `_9a`), the first one is kept
+	for _, name := range utils.OrderedKeys(spec.Components.Schemas) {
+		ref := spec.Components.Schemas[name]
 		sName := getSyslSafeName(name)
 		if _, found := o.types.Find(sName); !found {
 			if ref.Value == nil {
